@@ -11,7 +11,7 @@ import (
 
 const rule = "explicitly enumerated program space inside the Go backend's subset; every program is run on the VM and (when the backend accepts it) built and run natively: " +
 	"(ops) every binary operator of Int, Float, String and Int×Float × forms {literal, locals, typed method parameters, explicit method call, union-typed, compound assignment} × a fixed operand-pair list; unary operators; " +
-	"(cf) control-flow nestings of depth ≤ 2 over {if, if-else, unless, while, until, loop, for-in range, for-in list, fornum, switch} × inner {println, if, if-else, while, loop, for-in, break, continue, return, labelled break, if-value} in methods and at top level, each method called with n ∈ 0..3; " +
+	"(cf) control-flow nestings of depth ≤ 2 over {if, if-else, unless, while, until, loop, for-in range, for-in list, fornum, switch} × inner {println, if, if-else, while, loop, for-in, break, continue, return, labelled break, if-value, break-with-value} in methods (and at top level: quick tier only println, break, continue, if-value), each method called with n ∈ 0..3; " +
 	"(meth) typed/optional/named/rest parameters, recursion, classes, modules; (coll) list/tuple/map/set/range literals × element kinds × {inspect, length, index, store, append, concat, iterate, map with closure}; " +
 	"(str) interpolation and String methods; (clos) closures capturing and mutating locals; (sel) switch/logical/nil-handling; (catch) do/catch/finally; " +
 	"(err) one program per uncaught-error kind {Int / 0, Int % 0, list index, tuple index, must nil, failed as-cast, thrown symbol} × call depth 0..2 × raising site {assignment, argument, statement} plus class-method/closure/loop frames. " +
@@ -489,6 +489,9 @@ func cfBatches(thorough bool) []batch {
 		for _, o := range cfOuter {
 			var items []item
 			for _, in := range cfInner {
+				if !thorough && !inMethod && in != "print" && in != "break" && in != "continue" && in != "ifvalue" {
+					continue // quick tier: the remaining inner constructs at top level are left to the thorough tier
+				}
 				if it, ok := cfItem(o, in, inMethod); ok {
 					items = append(items, it)
 				}
